@@ -1,5 +1,5 @@
 (** C05: AST() and the syntax-tree printers reproduce the derivation tree. *)
-From PegV Require Import Base.Tac Spec.Syntax Spec.Peg Spec.Tokens Model.Machine Model.Runtime Model.Gen Proofs.Top Properties.Example.
+From PegV Require Import Base.Tac Spec.Syntax Spec.Peg Spec.Tokens Model.Machine Model.Runtime Model.Gen Proofs.Top Properties.Example Model.Analyses Model.Emit Model.SEmit Model.Exec Proofs.SEmitFile.
 
 (** The stack algorithm of AST() applied to the tokens of a successful parse returns the
     derivation tree with its empty nodes removed: every non-empty token is a node, a node's children
@@ -14,6 +14,19 @@ Theorem C05_ast_is_derivation_tree :
       print_tree (live st') = (if 0 =? p then [] else preorder 0 (Rose (r, (0, p)) (prune_forest kids))).
 Proof. exact c05_ast. Qed.
 Print Assumptions C05_ast_is_derivation_tree.
+
+(** ... and so for the tokens the statements of the generated file record (Model/SEmit.v, Model/Exec.v, see C01) *)
+Theorem C05_generated_code_ast :
+  forall g ptx buf penv, good_grammar g -> good_buf buf -> good_switches g ->
+  forall memo inline n r st0 p f evs,
+    deep_table_b g inline = true -> slot_ok g inline r -> reached (count_rules g) r = true ->
+    peg_parse g ptx buf penv (S n) r = Some (Succ p f, evs) ->
+    forall res, xcall buf penv (mk_opts true memo inline g) (gen_fn g ptx inline) r (reset st0) res ->
+      exists st' kids, res = Ret true st' /\ f = [Node r 0 p kids] /\
+        ast (live st') = (if 0 =? p then None else Some (Rose (r, (0, p)) (prune_forest kids))) /\
+        print_tree (live st') = (if 0 =? p then [] else preorder 0 (Rose (r, (0, p)) (prune_forest kids))).
+Proof. exact generated_code_ast. Qed.
+Print Assumptions C05_generated_code_ast.
 
 (** non-vacuity: "aby": R0[0,3) > R1[0,2) > PegText[0,2); the zero-width Action0 token is dropped *)
 Example C05_nonvacuous :
